@@ -729,3 +729,7 @@ def replay(case):
             else x
     run_job(tup(case['job']), acc)
     return [v for exs in acc.viol_examples.values() for v in exs]
+
+
+RULE += (
+    ' Process p0 of the schedule worlds carries a _schema override; genstep worlds: a generated parallel step with private state whose compartment is moved later; values worlds: every pair of empty-shaped update values through the pipe.')
